@@ -6,6 +6,7 @@ package wrap
 import (
 	"errors"
 	"os"
+	"sync/atomic"
 	"syscall"
 
 	"github.com/ostafen/clover/v2/store"
@@ -45,6 +46,9 @@ func (k Kind) Faultable() bool {
 }
 
 var ErrInjected = errors.New("simstore: injected store failure")
+
+// Calls counts the store calls of the whole process (read by the hang monitor).
+var Calls int64
 
 // CrashSignal is the panic value used to unwind a simulated process crash.
 type CrashSignal struct{}
@@ -160,6 +164,7 @@ func (c *Ctl) before(k Kind, update bool, key []byte) (bool, error) {
 	if c.Yield != nil {
 		c.Yield(k, update)
 	}
+	atomic.AddInt64(&Calls, 1)
 	c.Calls++
 	c.TotalCalls++
 	c.ByKind[k]++
